@@ -243,6 +243,20 @@ m('c20-skip-empty', 'C20', 'utils/migration.py', "        if not old_task.has_da
 m('c20-copytree-symlink', 'C20', 'utils/migration.py', "                copytree(old_task.data_path, new_task.data_path)", "                new_task.data_path.symlink_to(old_task.data_path)")
 m('c20-suffix-from-old', 'C20', 'utils/migration.py', "                copytree(old_task.data_path, new_task.data_path)", "                copytree(old_task.data_path, str(new_task.data_path) + old_task.data_path.suffix)")
 
+# ---- C05 -----------------------------------------------------------------------------------------------
+m('c05-json-in-place', 'C05', 'data.py', "        with self._publishing() as path, path.open('w') as f:\n            json.dump(self.value, f, indent=2, sort_keys=True)", "        json.dump(self.value, self.path.open('w'), indent=2, sort_keys=True)")
+m('c05-numpy-in-place', 'C05', 'data.py', "        with self._publishing() as path:\n            np.save(str(path), self.value)", "        np.save(str(self.path), self.value)")
+m('c05-dir-copy-publish', 'C05', 'data.py', "    def save(self):\n        _replace_dir(self.tmp_path, self.path)\n        self._value = self._dir = self.path", "    def save(self):\n        if self.path.exists():\n            shutil.rmtree(self.path)\n        shutil.copytree(str(self.tmp_path), str(self.path))\n        shutil.rmtree(self.tmp_path)\n        self._value = self._dir = self.path")
+m('c05-skip-on-run-error', 'C05', 'task.py', "                if self._data:\n                    self._data.on_run_error()\n                    self._data = None", "                if self._data:\n                    self._data = None")
+m('c05-save-before-type-check', 'C05', 'task.py', "        if isclass(self.data_type) and issubclass(self.data_type, Data) and isinstance(run_result, self.data_type):", "        if self._data is not None and self._data.is_persisting and not isinstance(self._data, DirData) and not (isclass(self.data_type) and issubclass(self.data_type, Data)):\n            self._data.set_value(run_result)\n            self._data.save()\n        if isclass(self.data_type) and issubclass(self.data_type, Data) and isinstance(run_result, self.data_type):")
+m('c05-process-result-outside-try', 'C05', 'task.py', "                        data_log_handler.close()\n                self._process_run_result(run_result)\n            except Exception as error:\n                if self._data:\n                    self._data.on_run_error()\n                    self._data = None\n                raise error\n", "                        data_log_handler.close()\n            except Exception as error:\n                if self._data:\n                    self._data.on_run_error()\n                    self._data = None\n                raise error\n            self._process_run_result(run_result)\n")
+m('c05-data-kept-after-error', 'C05', 'task.py', "                    self._data.on_run_error()\n                    self._data = None", "                    self._data.on_run_error()")
+m('c05-publish-before-write', 'C05', 'data.py', "        try:\n            yield tmp_path\n            os.replace(tmp_path, self.path)", "        try:\n            tmp_path.touch()\n            os.replace(tmp_path, self.path)\n            yield self.path")
+m('c05-replace-dir-rmtree-first', 'C05', 'data.py', "    if path.exists():\n        os.rename(path, old_dir)\n    os.rename(new_dir, path)", "    if path.exists():\n        shutil.rmtree(path)\n    os.rename(new_dir, path)")
+m('c05-dir-tmp-not-wiped', 'C05', 'data.py', "        if self.tmp_path.exists():\n            shutil.rmtree(self.tmp_path)\n        self.tmp_path.mkdir()\n        self._dir = self.tmp_path", "        self.tmp_path.mkdir(exist_ok=True)\n        self._dir = self.tmp_path")
+m('c05-continues-tmp-wiped', 'C05', 'data.py', "        if not self.tmp_path.exists():\n            self.tmp_path.mkdir()\n        self._dir = self.tmp_path", "        if self.tmp_path.exists():\n            shutil.rmtree(self.tmp_path)\n        self.tmp_path.mkdir()\n        self._dir = self.tmp_path")
+m('c05-lazy-no-tmp', 'C05', 'data.py', "        write_jsons(value, self.tmp_path)\n        shutil.move(str(self.tmp_path), str(self.path))", "        write_jsons(value, self.path)")
+
 
 def make_scratch():
     d = Path(tempfile.mkdtemp(prefix='tcmut-'))
